@@ -38,7 +38,7 @@ class Nondeterminism(Exception):
 
 
 class Engine:
-    def __init__(self, base=(), timeout_ms=30000, path_timeout_s=5.0):
+    def __init__(self, base=(), timeout_ms=30000, path_timeout_s=10.0):
         self.solver = z3.Solver()
         self.solver.set('timeout', timeout_ms)
         self.base = list(base)
